@@ -438,6 +438,17 @@ func gen(r *vh.Rand, tier string, n int, emit func(vh.Case)) {
 		for j := 0; j < 3; j++ {
 			g.get()
 		}
+		// back-to-back reads of every reference (similar sizes share a buffer size class), twice
+		for round := 0; round < 2; round++ {
+			for _, c := range g.cids {
+				if rf := g.refs[vh.Hex(c.Hash())]; rf != nil {
+					for _, reg := range g.regions(rf) {
+						g.h(cid.NewCidV1(cid.Raw, c.Hash()), reg)
+					}
+					g.emit("fmget %s", cidStr(c))
+				}
+			}
+		}
 		// IsURL on boundary strings (exactly 7/8 characters, wrong scheme, upper case, ...)
 		g.emit("isurl %s", vh.Hex([]byte(vh.Pick(rr, []string{"http://", "http://a", "https://", "https://a", "http:/a/b", "httpx://aa",
 			"h", "HTTP://a.b", "http:///", "https:/x/yz", "httpss://a", "ftp://abcde", "http//abcd", "https//abcd", "a.bin",
@@ -581,8 +592,25 @@ func exec(c vh.Case, o *vh.Out) {
 	var allowFiles bool
 	reader := "std"
 	honestPuts := map[string]*putInfo{} // multihash -> info, only while the reference is the one Put wrote
-	urlRefs := map[string]string{}      // multihash -> symbolic URL of a raw URL reference
-	urlKinds := map[string]urlEnt{}     // symbolic URL -> behaviour of the server
+	// every block a read returned is retained for the rest of the case together with a private copy of
+	// its bytes at return time: a returned block is a value, no later operation may change it
+	type held struct {
+		op   string
+		blk  blocks.Block
+		snap []byte
+	}
+	var retained []held
+	checkRetained := func(when string) {
+		for i, h := range retained {
+			if !bytes.Equal(h.blk.RawData(), h.snap) {
+				o.Fail("returned-block-mutated-later", "block returned by %q changed after %s: was %x, now %x", h.op, when, h.snap, h.blk.RawData())
+				retained[i].snap = append([]byte{}, h.blk.RawData()...) // report each change once
+			}
+		}
+	}
+	defer checkRetained("the end of the case")
+	urlRefs := map[string]string{}  // multihash -> symbolic URL of a raw URL reference
+	urlKinds := map[string]urlEnt{} // symbolic URL -> behaviour of the server
 	refKey := func(m []byte) ds.Key { return filestore.FilestorePrefix.Child(dshelp.MultihashToDsKey(m)) }
 
 	for _, line := range c.Ops {
@@ -807,6 +835,10 @@ func exec(c vh.Case, o *vh.Out) {
 				b, err = fst.Get(ctx, k)
 			}
 			res := outOf(b, err)
+			checkRetained(line)
+			if err == nil {
+				retained = append(retained, held{line, b, append([]byte{}, b.RawData()...)})
+			}
 			o.Kind(f[0] + "-" + strings.SplitN(res, ":", 2)[0])
 			if _, isURL := urlRefs[vh.Hex(k.Hash())]; isURL && f[0] != "vget" {
 				o.Kind("url-ref-" + strings.SplitN(res, ":", 2)[0])
